@@ -84,10 +84,35 @@ static const char *ctx_of(int t)
         sim_violation(_k, __VA_ARGS__); } while (0)
 #define VIOL(t, oracle, ...) VIOLP(prop_of(t), oracle, __VA_ARGS__)
 
+static int cmp_plain(const void *a, const void *b, void *p)
+{
+    const struct telem *x = a, *y = b;
+    (void)p;
+    return (x->key > y->key) - (x->key < y->key);
+}
+
+/* in a fraction of the runs the comparison function itself looks its arguments up in ANOTHER tree: a library
+ * with hidden shared state (a static probe, a cached path) does not survive a caller that re-enters it */
+static struct cstl_rbtree auxtree;
+static struct telem auxel[64];
+static int reentrant;
+
 static int cmp_key(const void *a, const void *b, void *p)
 {
     const struct telem *x = a, *y = b;
     (void)p;
+    if (reentrant) {
+        CB_ENTER();
+        struct telem pr; const struct telem *fx, *fy;
+        pr.magic = MAGIC; pr.tail = ~MAGIC;
+        g_inlib = 1;
+        pr.key = x->key % 64; fx = cstl_rbtree_find(&auxtree, &pr, NULL);
+        pr.key = y->key % 64; fy = cstl_rbtree_find(&auxtree, &pr, NULL);
+        g_inlib = 0;
+        if (fx == NULL || fy == NULL || fx->key != x->key % 64 || fy->key != y->key % 64)
+            sim_violation("C01/reentrant_lookup/compare/aux-tree", "a lookup in an independent tree, made from inside a comparison callback, returned the wrong element");
+        CB_LEAVE();
+    }
     return (x->key > y->key) - (x->key < y->key);
 }
 
@@ -302,6 +327,18 @@ static void t_exec(const plan_t *p)
     cstl_rbtree_init(&rb[0], cmp_key, NULL, offsetof(struct telem, rn));
     cstl_rbtree_init(&rb[1], cmp_key, NULL, offsetof(struct telem, rn));
     probe.magic = MAGIC; probe.tail = ~MAGIC; probe.id = -1; probe.tree = -1;
+    reentrant = 0;
+    if (p->cfg[CF_STREAM] >> 8 & 1) {
+        int q;
+        cstl_rbtree_init(&auxtree, cmp_plain, NULL, offsetof(struct telem, rn));
+        for (q = 0; q < 64; q++) {
+            int kk = (q * 37) % 64;
+            auxel[kk].magic = MAGIC; auxel[kk].tail = ~MAGIC; auxel[kk].key = kk; auxel[kk].id = -3; auxel[kk].tree = -2;
+            g_inlib = 1; cstl_rbtree_insert(&auxtree, &auxel[kk], NULL); g_inlib = 0;
+        }
+        reentrant = 1;
+        PROBE("comparator_reenters_library");
+    }
 
     for (k = 0; k < p->nops; k++) {
         const op_t *o = &p->ops[k];
@@ -503,7 +540,7 @@ static void t_gen(prng_t *r, int mode, plan_t *p)
     p->cfg[CF_MAXN] = longrun ? 100 + prng_below(r, 400) : small ? 2 + prng_below(r, 6) : 6 + prng_below(r, 58);
     p->cfg[CF_CLEARFREES] = mode == 15 ? 1 : prng_below(r, 2);
     stream = (int)prng_below(r, 6);      /* 0,1: random; 2 ascending; 3 descending; 4 zig-zag; 5 few values */
-    p->cfg[CF_STREAM] = (uint64_t)stream;
+    p->cfg[CF_STREAM] = (uint64_t)stream | (prng_chance(r, 1, 6) ? 256 : 0);
     if (stream == 5) p->cfg[CF_KEYS] = 1 + prng_below(r, 3);
     nops = longrun ? 300 + (int)prng_below(r, 1700) : small ? 2 + (int)prng_below(r, 7) : 10 + (int)prng_below(r, 70);
 
